@@ -1688,3 +1688,171 @@ func seqnoMerge(c *Ctx, id string) {
 	})
 	c.Check(okNodes, id, "seqno-nodes", root.Pos(), "every node is asked: server index runs from 1 to NumServers() inclusive", "the node loop does not run from 1 to NumServers() inclusive: the vBuckets of a node are missing from the map")
 }
+
+// clientWiring (C13/C15/C17/C05): the client's own start and close paths, call by call. Every step below must be
+// present, a plain call, and guarded by exactly the configuration switch that says whether its component exists
+// (polarity included) — the other rules assume that the stream is opened, the listener subscribed, the health checker
+// started, the components stopped.
+func clientWiring(c *Ctx, id string) {
+	w := c.W
+	var start, cl, commit, setMd, newDcp *ssa.Function
+	for _, fn := range w.ModFuncs {
+		switch fname(fn) {
+		case "(*dcp.dcp).Start":
+			start = fn
+		case "(*dcp.dcp).close":
+			cl = fn
+		case "(*dcp.dcp).Commit":
+			commit = fn
+		case "(*dcp.dcp).SetMetadata":
+			setMd = fn
+		case "dcp.newDcp":
+			newDcp = fn
+		}
+	}
+	c.need(start != nil && cl != nil && commit != nil && setMd != nil && newDcp != nil, id, "dcp.Start / close / Commit / SetMetadata / newDcp")
+	type step struct {
+		fn     *ssa.Function
+		what   string
+		match  func(cc *ssa.CallCommon) bool
+		guards []string // each "Field=bool": the configuration flag and the value it must have; "" = unconditional
+	}
+	inv := func(iface, method string) func(cc *ssa.CallCommon) bool {
+		// by the declared interface of the field the call goes through (HealthCheck and LeaderElection share Start/Stop)
+		return func(cc *ssa.CallCommon) bool {
+			return cc.IsInvoke() && cc.Method.Name() == method && recvTypeName(cc.Value.Type()) == iface
+		}
+	}
+	steps := []step{
+		{start, "Stream.Open", inv("Stream", "Open"), nil},
+		{start, "HealthCheck.Start", inv("HealthCheck", "Start"), []string{"HealthCheck.Disabled=false"}},
+		{start, "ServiceDiscovery.StartHeartbeat", inv("ServiceDiscovery", "StartHeartbeat"), []string{"LeaderElection.Enabled=true"}},
+		{start, "ServiceDiscovery.StartMonitor", inv("ServiceDiscovery", "StartMonitor"), []string{"LeaderElection.Enabled=true"}},
+		{start, "LeaderElection.Start", inv("LeaderElection", "Start"), []string{"LeaderElection.Enabled=true"}},
+		{cl, "HealthCheck.Stop", inv("HealthCheck", "Stop"), []string{"HealthCheck.Disabled=false"}},
+		{cl, "Stream.Close", inv("Stream", "Close"), nil},
+		{cl, "LeaderElection.Stop", inv("LeaderElection", "Stop"), []string{"LeaderElection.Enabled=true"}},
+		{cl, "ServiceDiscovery.StopMonitor", inv("ServiceDiscovery", "StopMonitor"), []string{"LeaderElection.Enabled=true"}},
+		{cl, "ServiceDiscovery.StopHeartbeat", inv("ServiceDiscovery", "StopHeartbeat"), []string{"LeaderElection.Enabled=true"}},
+		{cl, "Client.DcpClose", inv("Client", "DcpClose"), nil},
+		{cl, "Client.Close", inv("Client", "Close"), nil},
+		{cl, "VBucketDiscovery.Close", inv("VBucketDiscovery", "Close"), nil},
+		{commit, "Stream.Save", inv("Stream", "Save"), nil},
+	}
+	for _, sp := range steps {
+		c.see(sp.fn)
+		var sites []ssa.Instruction
+		allInstrs(sp.fn, func(in ssa.Instruction) {
+			if cc := callOf(in); cc != nil && sp.match(cc) {
+				sites = append(sites, in)
+			}
+		})
+		key := "wiring:" + sp.what + "@" + fname(sp.fn)
+		if len(sites) != 1 {
+			c.Fail(id, key, sp.fn.Pos(), "%d calls of %s in %s (expected exactly one)", len(sites), sp.what, fname(sp.fn))
+			continue
+		}
+		in := sites[0]
+		_, plain := in.(*ssa.Call)
+		var got []string
+		for _, g := range liveGuards(in.Block()) {
+			v, pol := stripNot(g.Cond, g.Branch)
+			if f, _ := flagRead(v); f != nil {
+				o := w.Origin(v)
+				parts := strings.Split(o, ".")
+				if len(parts) >= 2 {
+					got = append(got, fmt.Sprintf("%s.%s=%v", parts[len(parts)-2], parts[len(parts)-1], pol))
+					continue
+				}
+			}
+			got = append(got, w.Origin(g.Cond)+fmt.Sprintf("=%v", g.Branch))
+		}
+		sort.Strings(got)
+		want := append([]string{}, sp.guards...)
+		sort.Strings(want)
+		c.Check(plain && strings.Join(got, ",") == strings.Join(want, ","), id, key, in.Pos(), fmt.Sprintf("%s: plain call under %v", sp.what, want), fmt.Sprintf("%s is called (plain call: %v) under %v, expected under exactly %v", sp.what, plain, got, want))
+	}
+	// the listener is subscribed, and a failed subscription is fatal
+	var sub *ssa.Call
+	allInstrs(start, func(in ssa.Instruction) {
+		if call, ok := in.(*ssa.Call); ok && call.Common().IsInvoke() && strings.HasPrefix(call.Common().Method.Name(), "Subscribe") {
+			sub = call
+		}
+	})
+	if sub == nil {
+		c.Fail(id, "wiring:subscribe", start.Pos(), "Start no longer subscribes the membership listener")
+	} else {
+		fatal := false
+		for _, sk := range errorSinks(sub) {
+			if sk.Kind == "panic" {
+				fatal = true
+			}
+		}
+		c.Check(fatal && len(liveGuards(sub.Block())) == 0, id, "wiring:subscribe", sub.Pos(), "the membership listener is subscribed unconditionally and a failure is fatal", "the membership listener is not subscribed unconditionally with a fatal failure: membership changes would never reach the stream")
+	}
+	// SetMetadata stores what it was given
+	okSM := false
+	if f := w.Field("", "dcp", "metadata"); f != nil {
+		allInstrs(setMd, func(in ssa.Instruction) {
+			if st, ok := in.(*ssa.Store); ok && fieldOfAddr(st.Addr) == f && len(setMd.Params) == 2 && st.Val == ssa.Value(setMd.Params[1]) {
+				okSM = true
+			}
+		})
+	}
+	c.Check(okSM, id, "wiring:SetMetadata", setMd.Pos(), "SetMetadata installs the supplied store", "SetMetadata does not install the store it was given: checkpoints go to the default backend")
+	// newDcp applies the defaults before anything reads the configuration, and returns every error
+	c.see(newDcp)
+	var ad ssa.Instruction
+	allInstrs(newDcp, func(in ssa.Instruction) {
+		if cc := callOf(in); cc != nil && cc.StaticCallee() != nil && cc.StaticCallee().Name() == "ApplyDefaults" {
+			ad = in
+		}
+	})
+	okAD := ad != nil && len(guardsOf(ad.Block())) == 0
+	if okAD {
+		allInstrs(newDcp, func(in ssa.Instruction) {
+			if cc := callOf(in); cc != nil && in != ad && cc.StaticCallee() != nil && w.inModule(cc.StaticCallee()) && !strings.Contains(fname(cc.StaticCallee()), "logger") && !dominatesInstr(ad, in) {
+				okAD = false
+			}
+		})
+	}
+	c.Check(okAD, id, "wiring:defaults-first", newDcp.Pos(), "newDcp applies the defaults unconditionally before any other step", "newDcp does not apply the configuration defaults (first, unconditionally): unset options stay zero")
+	var dropped []string
+	allInstrs(newDcp, func(in ssa.Instruction) {
+		call, ok := in.(*ssa.Call)
+		if !ok || !hasErrorResult(call.Common()) {
+			return
+		}
+		ers := errResults(call)
+		if len(ers) == 0 || !reported(errorSinks(ers[0])) {
+			dropped = append(dropped, calleeName(call.Common())+" @"+w.pos(in.Pos()))
+		}
+	})
+	c.Check(len(dropped) == 0, id, "wiring:newDcp-errors", newDcp.Pos(), "every fallible step of newDcp returns its error", "newDcp drops the error of "+strings.Join(dropped, ", ")+": the client starts on a connection, version or bucket description it does not have")
+}
+
+// liveGuards is guardsOf without the guards that only say an earlier fatal check was survived
+// (if err != nil { panic(err) }): those are not conditions of the guarded step.
+func liveGuards(b *ssa.BasicBlock) []Guard {
+	var out []Guard
+	for _, g := range guardsOf(b) {
+		v, _ := stripNot(g.Cond, g.Branch)
+		if _, isErrTest := isNilCompare(v, func(x ssa.Value) bool { return types.Implements(x.Type(), errorIface()) }); isErrTest {
+			other := g.If.Block().Succs[0]
+			if g.Branch {
+				other = g.If.Block().Succs[1]
+			}
+			dies := false
+			for _, x := range other.Instrs {
+				if _, isP := x.(*ssa.Panic); isP {
+					dies = true
+				}
+			}
+			if dies {
+				continue
+			}
+		}
+		out = append(out, g)
+	}
+	return out
+}
